@@ -454,6 +454,52 @@ def rule_whole_on_condition(ctx):
     ctx.floor("C12.l matched-clause statements", n, 4)
 
 
+def rule_same_named_columns_kept_apart(ctx):
+    """C12.m: `WHEN MATCHED THEN UPDATE SET v = src.v, prev = tgt.v` reads a source column and a target column of the same bare
+    name: the helper table still carries the *source* column (keyed by the whole reference, not by the bare name — a map keyed
+    by `v` keeps one of the two and the SET silently assigns the target's own old value)."""
+    prog = ctx.prog
+    m = prog.mod("transforms_merge")
+
+    def ident(n_):
+        return NodeV("Identifier", {"this": Const(n_), "quoted": Const(False)}, name=f"id:{n_}", open=False)
+
+    def col(t, c):
+        return node("Column", f"{t}.{c}", this=ident(c), table=ident(t))
+
+    def md():
+        d = merge_descriptor()
+        upd = node("Update", expressions=Lst([node("EQ", this=col("TGT", "V"), expression=col("SRC", "V")),
+                                              node("EQ", this=col("TGT", "PREV"), expression=col("TGT", "V"))]))
+        d.args["expressions"] = Lst([node("When", "w0", matched=Const(True), then=upd)])
+        return d
+
+    n = 0
+    whole = not prog.has_fn("transforms_merge", "_create_merge_candidates")
+    for p in explore(prog, lambda: ExecHooks(None), lambda I: call_part(prog, I, "_create_merge_candidates", md()), max_paths=64):
+        if p.outcome != "return":
+            continue
+        if whole:
+            p = _own_parses(p)
+        parses = [e for e in p.effects if e[0] == "parse"]
+        if not parses:
+            continue
+        n += 1
+        txt = text_of(parses[-1][2] if not whole else parses[0][2])
+        up = txt.upper()
+        i0, i1 = up.find("SELECT"), up.rfind(" FROM ")
+        sel = txt[i0:i1] if 0 <= i0 < i1 else txt
+        sel = re.sub(r"\bCASE\b.*?\bEND\b(\s+AS\s+\w+)?", " ", sel, flags=re.I | re.S)
+        ok = "SRC.V" in sel
+        ctx.ob("C12.m", "SET v = src.v, prev = tgt.v: the helper carries the source column src.v", ok, m.path, " ".join(sel.split())[:90])
+        if not ok:
+            ctx.violation("C12.m", "transforms_merge", "_create_merge_candidates", "source column lost to a same-named target column", m.path,
+                          f"for `UPDATE SET v = src.v, prev = tgt.v` the helper table selects `{' '.join(sel.split())[:80]}`: the source column src.v is "
+                          f"not carried (columns are collected under their bare name, the target's `v` replaced it), so `v` keeps its old value "
+                          f"while the reported counts look right")
+    ctx.floor("C12.m helper statements", n, 1)
+
+
 class MergeHooks(FullHooks):
     def external(self, I, d, args, kwargs, site):
         if d in ("sqlglot.parse_one",) and isinstance(kwargs.get("read"), Const) and kwargs["read"].v == "snowflake":
@@ -541,6 +587,7 @@ def rule_lifetime_and_bracket(ctx):
 from .c19 import rule_temporary_stays_private  # noqa: E402  (the helper is TEMPORARY in the template *and* at the engine)
 
 RULES = [
+    ("C12.m", rule_same_named_columns_kept_apart, ("quick", "thorough")),
     ("C12.l", rule_whole_on_condition, ("quick", "thorough")),
     ("C12.g2", rule_helper_carries_source_only, ("quick", "thorough")),
     ("C12.k", rule_conditions_keep_grouping, ("quick", "thorough")),
